@@ -21,6 +21,8 @@ fn spaces(tier: Tier) -> Vec<Space> {
             Space { alpha: "SELF", depth: 2 },
             Space { alpha: "A0", depth: 2 },
             Space { alpha: "MICRO", depth: 3 },
+            Space { alpha: "SHARE", depth: 2 },
+            Space { alpha: "SHARE", depth: 3 },
             Space { alpha: "A1", depth: 2 },
             Space { alpha: "CORE", depth: 3 },
         ],
@@ -34,6 +36,8 @@ fn spaces(tier: Tier) -> Vec<Space> {
             Space { alpha: "A1", depth: 2 },
             Space { alpha: "Q", depth: 2 },
             Space { alpha: "MICRO", depth: 3 },
+            Space { alpha: "SHARE", depth: 2 },
+            Space { alpha: "SHARE", depth: 3 },
             Space { alpha: "T3", depth: 2 },
             Space { alpha: "BIND", depth: 2 },
             Space { alpha: "CORE", depth: 3 },
@@ -41,6 +45,7 @@ fn spaces(tier: Tier) -> Vec<Space> {
             Space { alpha: "A0", depth: 3 },
             Space { alpha: "SELF", depth: 3 },
             Space { alpha: "A2", depth: 2 },
+            Space { alpha: "SHARE", depth: 4 },
             Space { alpha: "MICRO", depth: 5 },
             Space { alpha: "CORE", depth: 4 },
         ],
